@@ -12,6 +12,7 @@
 -/
 import NiftyVerif.Model.Lanczos
 import NiftyVerif.Lemmas.GaussMarkov
+import NiftyVerif.Lemmas.LanczosOrtho
 import Mathlib.LinearAlgebra.Matrix.SchurComplement
 import Mathlib.Analysis.SpecialFunctions.Log.Basic
 
@@ -93,6 +94,20 @@ theorem lanczos_consecutive_orthogonal (hb : ∀ i, ββ i ≠ 0)
         c.symm (vv (i + 1)) (vv i), ih, alpha_eq]
       ring
     rw [hw, mul_zero]
+
+/-- **lanczos_orthonormal**: for a self-adjoint operator the Lanczos vectors of the recurrence as coded are orthonormal,
+    `⟨v_j, v_k⟩ = δ_jk` for ALL `j, k` (exact arithmetic, no breakdown) -/
+theorem lanczos_orthonormal (hA : ∀ x y, c.B (A x) y = c.B x (A y)) (hb : ∀ i, ββ i ≠ 0)
+    (hs : ∀ i, ββ i * ββ i = c.B (wVec c A sqrt v1 i) (wVec c A sqrt v1 i)) (h1 : c.B v1 v1 = 1) (j k : Nat) :
+    c.B (vv j) (vv k) = if j = k then 1 else 0 :=
+  Lanczos.lanczos_orthonormal c A sqrt v1 hA hb hs h1 (max j k) j k (le_max_left _ _) (le_max_right _ _)
+
+/-- **lanczos_tridiagonal**: `T = Vᵀ A V` has exactly the entries `β_i, α_{i+1}, β_{i+1}` in column `i+1` and zeros elsewhere -/
+theorem lanczos_tridiagonal (hA : ∀ x y, c.B (A x) y = c.B x (A y)) (hb : ∀ i, ββ i ≠ 0)
+    (hs : ∀ i, ββ i * ββ i = c.B (wVec c A sqrt v1 i) (wVec c A sqrt v1 i)) (h1 : c.B v1 v1 = 1) (i k : Nat) :
+    c.B (vv k) (A (vv (i + 1)))
+      = if k = i then ββ i else if k = i + 1 then αα (i + 1) else if k = i + 2 then ββ (i + 1) else 0 :=
+  Lanczos.tridiagonal_entries c A sqrt v1 hA hb hs h1 i k
 
 end lanczos
 
